@@ -132,6 +132,9 @@ def d1_inventory(ctx, idx):
     with r:
         reviewed_fields = set(INVENTORY)
         found = {}
+        construction = []
+        manager_writers = set()
+        negpow_managers = set(_negpow_manager_classes(idx))
         for f in idx.package_funcs():
             if f.module.name.startswith('mitxgraders.helpers.munkres') or f.module.name.startswith('mitxgraders.plugins'):
                 continue
@@ -150,6 +153,9 @@ def d1_inventory(ctx, idx):
                     fld = _field_of(fx, ast.Attribute(value=n.func.value, attr='__recv__', ctx=ast.Load()))
                     # receiver itself is the field
                     fld = _field_of_receiver(fx, n.func.value)
+                    if fld and fld.startswith('self.') and f.cls is not None and '__enter__' in f.cls.methods and '__exit__' in f.cls.methods \
+                            and not idx.is_subclass(f.cls.qualname, OWS):
+                        continue     # own attributes of a context-manager object (what it holds on to is a caller's local object)
                     if fld:
                         found.setdefault((fld, short_q), []).append(n)
                     continue
@@ -167,17 +173,33 @@ def d1_inventory(ctx, idx):
                         fld = 'cls.' + fld[5:]      # an instance-level store shadows the class-level field
                     if f.name == '__init__' and fld.startswith('self.') and not fld.startswith('self.config['):
                         continue     # plain instance attributes initialised by a constructor
+                    if f.name == '__init__' and fld.startswith('self.config[') and not (fld in INVENTORY and short_q in INVENTORY[fld]):
+                        # a constructor (possibly of a new shared base class) normalising its own validated configuration:
+                        # construction, not grading; the author's objects are protected by D5
+                        construction.append((fld, short_q, n))
+                        continue
+                    if fld.startswith('self.') and f.cls is not None and '__enter__' in f.cls.methods and '__exit__' in f.cls.methods \
+                            and not idx.is_subclass(f.cls.qualname, OWS):
+                        continue     # own attributes of a context-manager object: it lives for one `with` statement
+                    if fld in ('<other>._negative_powers', 'cls._negative_powers') and f.cls is not None and f.cls.qualname in negpow_managers \
+                            and f.name in ('__enter__', '__exit__'):
+                        fld = 'cls._negative_powers'
+                        manager_writers.add(short_q)
                     found.setdefault((fld, short_q), []).append(n)
         for (fld, q), nodes in sorted(found.items()):
             where = '%s:%d' % (idx.funcs['mitxgraders.' + q].module.relpath, nodes[0].lineno)
             if fld in INVENTORY and q in INVENTORY[fld]:
                 r.ok('%s <- %s' % (fld, q), INVENTORY[fld][q], where)
+            elif fld == 'cls._negative_powers' and q in manager_writers:
+                r.ok('%s <- %s' % (fld, q), 'the context-manager object returned by enable_negative_powers (D8)', where)
             elif fld in reviewed_fields:
                 r.violation('%s <- %s' % (fld, q), 'new writer of the reviewed persistent field %s: `%s`; state written here '
                             'survives the call and can change what a later call returns' % (fld, short(nodes[0])), where,
                             expected='writers: %s' % sorted(INVENTORY[fld]), found=q)
             else:
                 r.undecided('%s <- %s' % (fld, q), 'new persistent field not in the reviewed inventory: `%s`' % short(nodes[0]), where)
+        for fld, q, n in construction:
+            r.ok('%s <- %s' % (fld, q), 'constructor normalising its own validated configuration', '', nontrivial=False)
         # construction-only writers are called from constructors only
         for q, allowed in CONSTRUCTION_ONLY.items():
             name = q.rsplit('.', 1)[1]
@@ -356,6 +378,41 @@ def d3_log_flag(ctx, idx):
 
 
 # ----------------------------------------------------------------------------- D4
+def _d4_atom(e):
+    """Atom of the inference condition a test expression stands for: (name, polarity) or None."""
+    if isinstance(e, ast.Compare) and len(e.ops) == 1 and isinstance(e.left, ast.Name) and e.left.id == 'expect' \
+            and isinstance(e.comparators[0], ast.Constant) and e.comparators[0].value is None and isinstance(e.ops[0], (ast.Is, ast.IsNot)):
+        return 'given', isinstance(e.ops[0], ast.IsNot)
+    if isinstance(e, ast.Attribute) and e.attr == 'inferring_answers':
+        return 'inferring', True
+    if nf.config_key(e) == 'answers':
+        return 'answers', True
+    return None
+
+
+def _d4_eval(e, val, env=()):
+    """Three-valued truth of a test under a valuation of the atoms given / inferring / answers (None = unknown);
+    env: local names holding a decided truth value on the current path (temporaries of inlined predicate helpers)."""
+    if isinstance(e, ast.Constant) and isinstance(e.value, bool):
+        return e.value
+    if isinstance(e, ast.Name):
+        return dict(env).get(e.id)
+    if isinstance(e, ast.BoolOp):
+        vs = [_d4_eval(v, val, env) for v in e.values]
+        if isinstance(e.op, ast.And):
+            return False if any(v is False for v in vs) else (True if all(v is True for v in vs) else None)
+        return True if any(v is True for v in vs) else (False if all(v is False for v in vs) else None)
+    if isinstance(e, ast.UnaryOp) and isinstance(e.op, ast.Not):
+        v = _d4_eval(e.operand, val, env)
+        return None if v is None else (not v)
+    if isinstance(e, ast.Call) and isinstance(e.func, ast.Name) and e.func.id == 'bool' and len(e.args) == 1:
+        return _d4_eval(e.args[0], val, env)
+    a = _d4_atom(e)
+    if a is not None:
+        return val[a[0]] if a[1] else (not val[a[0]])
+    return None
+
+
 def d4_inference_condition(ctx, idx):
     r = ctx.rule('D4.NF', 'answers are inferred from expect iff expect is given and the grader has no configured answers', floor=1)
     with r:
@@ -363,18 +420,61 @@ def d4_inference_condition(ctx, idx):
         st = [s for s, f in _persistent_stores(fi) if f == "self.config['answers']"]
         if not st:
             raise AnalysisError('no store')
-        test = None
-        for a in ancestors(st[0]):
-            if isinstance(a, ast.If):
-                test = a.test
-                break
-        if test is None:
-            r.violation('ItemGrader.__call__: inference condition', 'answers are inferred unconditionally: a grader with configured answers '
-                        'no longer ignores expect', lib.loc(fi, st[0]))
+        # decided over the complete truth table of the three atoms (expect given, inferring_answers, answers configured): the
+        # store must be reached exactly when  given and (inferring or not answers),  whatever the layout (one compound test,
+        # nested tests, or guard clauses with early delegation)
+        cfg = cfg_of(fi.node)
+        targets = set(x for s0 in st for x in cfg.nodes_of(s0))
+        import itertools
+        wrong, unknown = [], []
+        for given, inferring, answers in itertools.product((False, True), repeat=3):
+            val = {'given': given, 'inferring': inferring, 'answers': answers}
+            need = given and (inferring or not answers)
+            definite, possible = False, False
+            stack = [(cfg.entry, True, frozenset())]
+            seen = set()
+            while stack:
+                node, sure, env = stack.pop()
+                if (node, sure, env) in seen:
+                    continue
+                seen.add((node, sure, env))
+                if node in targets:
+                    possible = True
+                    definite = definite or sure
+                    continue
+                if node.kind == 'test':
+                    t = _d4_eval(node.ast.test, val, env)
+                    for s2, lab in node.succs:
+                        if lab == 'exc':
+                            continue
+                        if t is None:
+                            stack.append((s2, False, env))
+                        elif lab == ('true' if t else 'false'):
+                            stack.append((s2, sure, env))
+                    continue
+                if node.kind == 'stmt' and isinstance(node.ast, ast.Assign) and len(node.ast.targets) == 1 and isinstance(node.ast.targets[0], ast.Name):
+                    nm = node.ast.targets[0].id
+                    v = _d4_eval(node.ast.value, val, env)
+                    env = frozenset([(k, x) for k, x in env if k != nm] + ([(nm, v)] if v is not None else []))
+                for s2, lab in node.succs:
+                    if lab != 'exc':
+                        stack.append((s2, sure, env))
+            case = 'expect %s, inferring_answers=%s, answers %s' % ('given' if given else 'absent', inferring, 'configured' if answers else 'empty')
+            if need and not possible:
+                wrong.append('%s: the expect value is not adopted' % case)
+            elif not need and definite:
+                wrong.append('%s: answers are inferred from expect although %s' % (
+                    case, 'no expect was given' if not given else 'the grader has configured answers and is not inferring'))
+            elif need != possible or (need and not definite):
+                unknown.append(case)
+        where = lib.loc(fi, st[0])
+        if wrong:
+            r.violation('ItemGrader.__call__: inference condition', 'the store of the inferred answers is reached in the wrong cases: %s' % '; '.join(wrong[:3]),
+                        where, expected="expect is not None and (self.inferring_answers or not self.config['answers'])")
+        elif unknown:
+            r.undecided('ItemGrader.__call__: inference condition', 'not decided for: %s (a test on the way is not built from the three atoms)' % '; '.join(unknown[:3]), where)
         else:
-            res = nf.classify("expect is not None and (self.inferring_answers or not self.config['answers'])", test)
-            r.verdict('ItemGrader.__call__: inference condition', res, lib.loc(fi, test),
-                      expected="expect is not None and (self.inferring_answers or not self.config['answers'])")
+            r.ok('ItemGrader.__call__: inference condition', 'store reached exactly when expect is given and (inferring or no configured answers): 8/8 cases', where)
         # class-level default of the flag
         ci = idx.cls(IG)
         v = ci.attrs.get('inferring_answers')
@@ -669,11 +769,69 @@ def d9_fresh_results(ctx, idx):
                                     work.append((t, depth + 1))
 
 
+def _negpow_manager_classes(idx):
+    """Qualified names of the classes whose instances MathArray.enable_negative_powers returns (class-based context manager)."""
+    try:
+        fi = idx.func('mitxgraders.helpers.calc.math_array.MathArray.enable_negative_powers')
+    except AnalysisError:
+        return []
+    out = []
+    for ret in lib.returns_of(fi.node):
+        if isinstance(ret.value, ast.Call):
+            kind, obj = idx.resolve_name(fi.module, ret.value.func.id) if isinstance(ret.value.func, ast.Name) else (None, None)
+            if kind is None and isinstance(ret.value.func, ast.Attribute) and isinstance(ret.value.func.value, ast.Name):
+                # a manager class nested in MathArray: cls._Manager(...) / MathArray._Manager(...)
+                q = 'mitxgraders.helpers.calc.math_array.MathArray.' + ret.value.func.attr
+                if q in idx.classes:
+                    kind, obj = 'class', idx.classes[q]
+            if kind == 'class' and '__enter__' in obj.methods and '__exit__' in obj.methods:
+                out.append(obj.qualname)
+    return out
+
+
+def _d8_class_manager(r, idx, fi, mq):
+    """enable_negative_powers returns an object with __enter__/__exit__: the flag is set on entry and put back by __exit__, which
+    Python runs on every exit of the with-block (normal or exceptional), provided it does not swallow the exception."""
+    ci = idx.cls(mq)
+    ent, ext = ci.methods['__enter__'], ci.methods['__exit__']
+
+    def flag_stores(f):
+        return [n for n in walk_own(f.node) if isinstance(n, ast.Assign) and any(isinstance(t, ast.Attribute) and t.attr == '_negative_powers' for t in n.targets)]
+    sets, rest = flag_stores(ent), flag_stores(ext)
+    if not sets:
+        r.undecided('MathArray.enable_negative_powers', '__enter__ of %s does not store the flag' % mq.split('.')[-1], ent.loc)
+        return
+    if not rest:
+        r.violation('MathArray.enable_negative_powers', 'the class flag is never restored: __exit__ of %s does not write it' % mq.split('.')[-1], ext.loc)
+        return
+    ok_value = all(any(isinstance(x, ast.Attribute) and x.attr == '_default_negative_powers' for x in ast.walk(s0.value)) or
+                   isinstance(s0.value, (ast.Attribute, ast.Name)) for s0 in rest)
+    xcfg = cfg_of(ext.node)
+    rn = [x for s0 in rest for x in xcfg.nodes_of(s0)]
+    always = xcfg.must_pass([xcfg.entry], rn, exits='return', after=True)
+    r.check(always and ok_value, 'MathArray.enable_negative_powers: restore', '__exit__ puts the flag back on every path',
+            '__exit__ of the manager can return without restoring the flag (or restores something else): an error inside one MatrixGrader call leaves '
+            'negative powers disabled/enabled for every later call in the process', lib.loc(ext, rest[0]))
+    swallow = [x for x in lib.returns_of(ext.node) if x.value is not None and nf.const_value(x.value, None) not in (None, False, 0)]
+    r.check(not swallow, 'MathArray.enable_negative_powers: __exit__ result', 'falsy (exceptions propagate)',
+            '__exit__ returns a true value: exceptions raised inside the with-block are swallowed', ext.loc)
+    # the flag is set on entry, not at construction
+    init = ci.methods.get('__init__')
+    if init is not None and flag_stores(init):
+        r.violation('MathArray.enable_negative_powers: setup', 'the flag is written when the manager object is created, not when the block is entered', init.loc)
+    r.check('classmethod' in fi.decorators, 'MathArray.enable_negative_powers: decorators', 'classmethod', 'decorators changed: %s' % fi.decorators, fi.loc)
+
+
 # ----------------------------------------------------------------------------- D8
 def d8_negative_powers(ctx, idx):
     r = ctx.rule('D8.PAIR', 'the matrix negative-power switch is restored on every exit and has one writer', floor=3)
     with r:
         fi = idx.func('mitxgraders.helpers.calc.math_array.MathArray.enable_negative_powers')
+        managers = _negpow_manager_classes(idx)
+        if managers:
+            _d8_class_manager(r, idx, fi, managers[0])
+            _d8_users(r, idx, fi, set(managers))
+            return
         cfg = cfg_of(fi.node)
         stores = [n for n in walk_own(fi.node) if isinstance(n, ast.Assign) and any(isinstance(t, ast.Attribute) and t.attr == '_negative_powers' for t in n.targets)]
         def is_restore(st):
@@ -707,9 +865,14 @@ def d8_negative_powers(ctx, idx):
                     'powers disabled/enabled for every later call in the process', lib.loc(fi, restores[0]))
         r.check('contextmanager' in fi.decorators and 'classmethod' in fi.decorators, 'MathArray.enable_negative_powers: decorators', 'classmethod + contextmanager',
                 'decorators changed: %s' % fi.decorators, fi.loc)
+        _d8_users(r, idx, fi, set())
+
+
+def _d8_users(r, idx, fi, manager_classes):
+    if True:
         # only writer
         for f in idx.package_funcs():
-            if f is fi:
+            if f is fi or (f.cls is not None and f.cls.qualname in manager_classes and f.name in ('__enter__', '__exit__')):
                 continue
             for n in walk_own(f.node):
                 if isinstance(n, (ast.Assign, ast.AugAssign)):
@@ -724,6 +887,11 @@ def d8_negative_powers(ctx, idx):
                 users += 1
                 st = lib.enclosing_stmt(c)
                 in_with = isinstance(st, ast.With) and any(c is i.context_expr for i in st.items)
+                if not in_with and isinstance(st, ast.Assign) and len(st.targets) == 1 and isinstance(st.targets[0], ast.Name) and st.value is c:
+                    # the manager object is created first and entered later: `m = enable_negative_powers(v)` ... `with m:`
+                    nm = st.targets[0].id
+                    in_with = any(isinstance(w, ast.With) and any(isinstance(i.context_expr, ast.Name) and i.context_expr.id == nm for i in w.items)
+                                  for w in walk_own(f.node))
                 r.check(in_with, '%s: enable_negative_powers' % f.qualname[len('mitxgraders.'):], 'entered with `with`',
                         'the context manager is called without `with` (`%s`): it is never entered/exited' % short(st), lib.loc(f, c))
         if users == 0:
@@ -750,7 +918,31 @@ _CALL_COMMIT_EARLY = """            self.config['answers'] = self.schema_answers
             self.config['answers'] = self.post_schema_ans_val(self.config['answers'])
 """
 
+_CLASS_MANAGER = """        return _NegPowSetting(cls, value)
+
+
+class _NegPowSetting(object):
+    def __init__(self, owner, value):
+        self.owner = owner
+        self.value = value
+
+    def __enter__(self):
+        self.owner._negative_powers = self.value
+
+    def __exit__(self, exc_type, exc, tb):
+%s
+        return False
+
+
+class _Dummy(object):
+    def _unused(self):
+        pass"""
+_GEN_BODY = "        # setup\n        cls._negative_powers = value\n        try:\n            # try with block\n            yield\n        finally:\n            # teardown\n            cls._negative_powers = cls._default_negative_powers"
+
 MUTANTS = [
+    Mutant('negpow-class-manager-restores-only-on-success', MARR,
+           [("    @classmethod\n    @contextmanager\n    def enable_negative_powers(cls, value):", "    @classmethod\n    def enable_negative_powers(cls, value):"),
+            (_GEN_BODY, _CLASS_MANAGER % "        if exc_type is None:\n            self.owner._negative_powers = self.owner._default_negative_powers")], None, 'D8'),
     Mutant('construct-suffixes-copy-late (seeds C09c/C11d)', 'mitxgraders/sampling.py', "    suffixes = default_suffixes.copy()\n    if metric:\n        suffixes.update(METRIC_SUFFIXES)\n",
            "    suffixes = default_suffixes\n    if metric:\n        suffixes.update(METRIC_SUFFIXES)\n", 'D7'),
     Mutant('commit-before-postvalidation (F3)', BASE, _CALL_OLD, _CALL_COMMIT_EARLY, 'D2'),
@@ -795,6 +987,9 @@ MUTANTS = [
 ]
 
 BENIGN = [
+    Benign('negpow-class-based-manager', MARR,
+           [("    @classmethod\n    @contextmanager\n    def enable_negative_powers(cls, value):", "    @classmethod\n    def enable_negative_powers(cls, value):"),
+            (_GEN_BODY, _CLASS_MANAGER % "        self.owner._negative_powers = self.owner._default_negative_powers")], None),
     Benign('negpow-save-and-restore', MARR, "        # setup\n        cls._negative_powers = value\n        try:\n            # try with block\n            yield\n        finally:\n            # teardown\n            cls._negative_powers = cls._default_negative_powers",
            "        # setup\n        previous = cls._negative_powers\n        cls._negative_powers = value\n        try:\n            # try with block\n            yield\n        finally:\n            # teardown\n            cls._negative_powers = previous"),
     Benign('register-defaults-copy-idiom', BASE, "            cls.default_values = {}\n        cls.default_values.update(values_dict)",
